@@ -32,6 +32,10 @@ CLAIMED["C13"] = dict(technique="metamorphic testing over rapid-generated progra
 CLAIMED["C07"] = dict(technique="metamorphic testing over rapid-generated programs: inserting one @ignore comment must remove exactly the diagnostics in its model-computed scope that match its codes",
     text="One @ignore comment is inserted into a generated program at a model-level position (before the package clause, alone before a declaration or statement, trailing the first or last line of a node), on a node containing a chosen diagnostic, a sibling, or anywhere, with a code list from 12 classes; expected result = baseline minus {in scope and matched under ALL>category>code}, with the once-per-file reports moving to the next unsuppressed use known from the model; compared in both directions.",
     note=_meta_note + "; scope is computed from the model's node line ranges, never from gogreement's AST walk; not placed: comments inside type bodies / composite literals, last-in-block comments, block comments", ref="DESIGN.md section 3, C07")
+
+CLAIMED["C08"] = dict(technique="differential testing against the unrestricted run with a reference matcher: exhaustive singletons/pairs of the token alphabet + rapid subsets in random spelling, through the repository's flag parser in-process and through the real binary (flag and env)",
+    text="For a fixed probe module producing all 16 codes and for rapid-generated programs, the diagnostics under exclude-checks=S must equal the diagnostics of the unrestricted run filtered by a restated ALL>category>code matcher; every single token and ordered pair of the 30-token alphabet is enumerated, random subsets add case, spacing and empty items; a sample goes through the real binary with --config.exclude-checks and GOGREEMENT_EXCLUDE_CHECKS.",
+    note="reference matcher and list parser are restated in the harness (6 + 10 lines); in-process runs use config.CreateFlagSet/ParseFlagsFromFlagSet from the repository to turn the raw string into a Config", ref="DESIGN.md section 3, C08")
 ALL = ["C%02d" % i for i in range(1, 20)]
 NA_REASON = {}
 def main():
